@@ -5,7 +5,7 @@ PROP = 'C13'
 
 
 def run(tier):
-    return _issues.run_issues(PROP, 'errors', tier, 120000 if tier == 'thorough' else 20000)
+    return _issues.run_issues(PROP, 'errors', tier, 120000 if tier == 'thorough' else 20000, provenance=True, semctx=True)
 
 
 replay = _issues.replay
